@@ -1,15 +1,48 @@
 PROP = dict(
     level="exploration",
     design_ref="DESIGN.md §3 C30, §4 F-C30-1",
-    technique="rapid model-based testing of generated view definitions and request histories: access tracing through a recording databag, "
-              "write-log reference model of transactions, reference reading of the generated storage schema",
-    level_text="TODO",
-    level_note="TODO",
-    rule="TODO",
-    assumptions=[],
+    technique="rapid model-based testing of generated view definitions and request histories: access tracing through a recording databag "
+              "placed between the View and the Transaction / JSONDataBag, a write-log reference model of transactions over a nested-map databag model, "
+              "a reference reading of the generated storage schema, before/after comparison of the stored databags at the system entry points",
+    level_text="Generated view definitions (1-7 rules incl. nested 'content' rules, literal and placeholder segments with permuted placeholder order "
+               "in the storage path, read / write / read-write access, a second rule for the same or a deeper request with another access, optional typed "
+               "storage schema built from the rules' storage paths and parsed by the real schema parser, pre-existing stored data) are exercised with "
+               "generated histories of Get / Set / Unset requests (exact, prefix, too long, unrelated and malformed requests; scalar, list, map, null-carrying, "
+               "wrongly shaped and wrongly typed values). tx (L2): two registry.Transactions over one committed databag with interleaved requests, commits in "
+               "either order and fresh transactions; bag (L3): a View over an instrumented plain JSONDataBag; system (L1): registrystate.SetViaView/GetViaView "
+               "on a real state.State with the view served from a signed registry assertion, plus writes to a second registry of the same account. "
+               "Checked after every step: every storage path (and value) handed to the databag is justified by a rule with the needed access for that request; "
+               "requests without such a rule are refused and matching write requests are never refused as not-found; a Set accepted through the only matching "
+               "read-write rule reads back (equal / contained for open placeholders); a refused Set/Unset performed no databag write and changed neither the "
+               "committed databag nor any pending view; each transaction's pending view equals its base plus its own accepted write log; a successful Commit "
+               "stores exactly latest-committed + that log and the result satisfies the schema; a refused Commit changes nothing and is only allowed when that "
+               "result violates the schema; at the system level refused requests leave state['registry-databags'] byte-identical, changed storage paths lie on "
+               "paths mapped by a writable rule of the request, and other registries' databags are untouched. Sampled histories of bounded length: a pass is "
+               "absence of counterexamples in the sample.",
+    level_note="Trusts the harness's models: rule matching = component-wise prefix with consistent placeholder binding, databag = nested maps "
+               "(set creates/replaces intermediate levels, null unsets, a placeholder segment designates every key of its level; emptied and absent maps are "
+               "not distinguished), schema reading restricted to the generated language (any/string/int/bool leaves, maps with 'schema' or 'values'). "
+               "Not claimed: the shape of Get results in general (only read-your-write), which of several matching rules wins a merged read, error texts, "
+               "isolation between transactions beyond 'own base + own writes' (a view rebased on the latest committed data is accepted too), "
+               "goroutine-level concurrency on one Transaction (requests are sequential, as under the state lock), hookstate-cached transactions "
+               "(RegistryTransaction), late refusals over a plain JSONDataBag (DESIGN §4 F-C30-1: not reachable from production callers, which always use a Transaction). "
+               "Domain restrictions: the first storage segment of a top-level rule is a literal key, placeholder names are not repeated inside one rule, "
+               "no nulls inside lists.",
+    rule="rapid draws (view, schema choice + leaf types, 0-3 seed writes, history). tx: 6-22 (thorough 30) ops set 45% / get 17% / unset 12% / commit 22% / newtx 4% "
+         "on tx0/tx1, 60% of cases end with both transactions committing in a drawn order; bag: 6-16 (24) ops; system: 6-16 (22) whole requests of 1-2 fields "
+         "(null = unset), gets of 1-2 fields, in 40% of cases writes to a second registry. Requests are derived from a drawn rule (full or proper prefix with "
+         "placeholders bound to {a,b,k,m}), 7% one segment too long, 6% unrelated, 4% malformed; Set values are shaped after the unmatched suffix with typed or random "
+         "leaves, 6% replaced by a scalar, 6% with an extra unused key. "
+         "Non-trivial = the history contains a request matching >= 2 rules with different access, or an accepted prefix Set with a map value, or a refused "
+         "write (or schema-refused commit) after an accepted one; distinct by hash of the case. Class floors: multi-access, prefix-map, reject-after-accept >= 20% each.",
+    assumptions=["reference models as described (matching, nested-map databag, write-log transactions, restricted schema reading) are written from the property text and "
+                 "the doc comments of registry.go/transaction.go, not from the matching code",
+                 "requests of one history are sequential (state lock held at the system level)",
+                 "readDatabag hands out a fresh copy of the committed databag on every call, as the state-backed getter of registrystate does",
+                 "known findings F-C30-2 (Unset below a non-map poisons the transaction) and F-C30-3 (open placeholders keyed in storage order) end the case they occur in"],
     engines=[
-        gt("tx", "registry", "TestVerifC30Tx", dict(checks=2500, shards=2), dict(checks=50000, shards=8)),
-        gt("bag", "registry", "TestVerifC30Bag", dict(checks=3000, shards=1), dict(checks=50000, shards=4)),
-        gt("system", "overlord/registrystate", "TestVerifC30System", dict(checks=1000, shards=1), dict(checks=25000, shards=4)),
+        gt("tx", "registry", "TestVerifC30Tx", dict(checks=2500, shards=2), dict(checks=30000, shards=8)),
+        gt("bag", "registry", "TestVerifC30Bag", dict(checks=3000, shards=1), dict(checks=30000, shards=4)),
+        gt("system", "overlord/registrystate", "TestVerifC30System", dict(checks=1500, shards=1), dict(checks=15000, shards=4)),
     ],
 )
